@@ -826,8 +826,6 @@ def run_schedule(topo, attached, script=None, rng=None, crash_plan=None, max_eve
         if crash_at and steps >= crash_at[0][0]:
             _, who = crash_at.pop(0)
             cands = [i for i in (workers if who == 'W' else managers) if sim.alive(i)]
-            if who == 'M':    # only managers whose employees are workers (the theorem's hypothesis) unless nested is wanted
-                cands = [i for i in cands if crash_plan_allows_nested or all(sim.kind[c] == 'W' for c in sim.children[i])]
             if cands:
                 v = rng.choice(cands)
                 do(['fail', v] if who == 'W' and rng.random() < 0.25 and not sim.cend[v].closed else ['crash', v])
@@ -1512,11 +1510,11 @@ def scenario(mode, point, table=None, **kw) -> dict:
 
 
 def quick_scenarios() -> list[dict]:
+    """Four runs in parallel: attached mid-sub-task; detached manager killed with two blocked clients; second crash
+    (worker then manager); the nested regression (former finding C14-F1: everything must now go down)."""
     return [
         scenario('attached', 'sub_running'),
-        scenario('attached', 'root_sleeping'),
         scenario('detached', 'manager_of_root', MANAGER_POINTS, clients=2),
-        scenario('detached', 'sub_running'),
         scenario('detached', 'worker_then_manager', MANAGER_POINTS),
         dict(mode='detached', point='nested_top_manager', nested=True, managers=2, workers=1,
              kill=[dict(who='top_manager', at='sub_start')], client='blocked_result', work=dict(n_sub=2, t_sub=3.0, t_sleep=1.0)),
@@ -1652,7 +1650,7 @@ def cosim_worker(seed: int, n: int, budget_s: float) -> None:
     for i in range(n):
         if time.time() - t0 > budget_s:
             break
-        nested = rng.random() < 0.06
+        nested = rng.random() < 0.2
         topo, att = random_topology(rng, nested)
         r = rng.random()
         plan = []
@@ -1727,8 +1725,8 @@ def _compare_one(ctx, p, out):
         if last != 'X':
             q_model, down_model = last[1] == 'T', last[2] == 'T'
             ctx.count('model_quiescent_final' if q_model else 'model_not_quiescent_final')
-            if q_model and info['crashes'] and not nested and not down_model:
-                ctx.broken_obligation('model reached a quiescent state that is not all_down after a good crash',
+            if q_model and info['crashes'] and not down_model:
+                ctx.broken_obligation('model reached a quiescent state that is not all_down after a crash',
                                       json.dumps(case)[:1500])
 
 
@@ -1774,7 +1772,7 @@ def run(ctx):
         'topologies (attached: server+2-3 workers+1 client; detached: 1-3 managers x 1-3 workers, 1-3 clients; nested managers): '
         'client submit/result/status calls with a random number of already-arrived messages, FIFO-respecting deliveries in random '
         'order, worker traffic (WAITING/UPDATE/LOG/CANCEL, RESULT of root tasks), SIGKILL of 1-2 workers/level-1 managers or a '
-        'worker runtime error at a random step, then delivery until nothing is enabled; executed on the real run()/send_outgoing/'
+        'worker runtime error at a random step (any manager, nested ones included), then delivery until nothing is enabled; executed on the real run()/send_outgoing/'
         'recv_incoming/Compiler code and on the extracted Coq model, all observations compared after every event. '
         '(2) property oracle on the implementation at quiescence. (3) real-process SIGKILL runs at named crash points '
         '(attached and detached, second crash), each client call must raise RuntimeError within %ds, results must be complete, the '
@@ -1785,8 +1783,8 @@ def run(ctx):
         'SIGKILL, that Process.join returns and every wall-clock bound are validated only by the real-process fault runs',
         'FIFO links: what a process sent before it died is delivered before the EOF (TCP on loopback)',
         'uuid4 task ids of different submissions never collide',
-        'crashes of the server itself and of managers that manage other managers are outside the proved theorem '
-        '(the latter is refuted: C14_crash_propagates_refuted_nested, known finding C14-F1)',
+        'crashes of the server itself are outside the theorem; nested manager topologies are inside it since repo commit '
+        'ddab951 (fixed finding C14-F1: a manager that loses its boss shuts down)',
         'ordinary traffic (SUBMIT_BATCH, WAITING, UPDATE, LOG, CANCEL...) is abstract in the model: any live node may send it; '
         'its handlers are exercised in the co-simulation but only their sends/closes are compared',
         'client call outcomes are compared up to the exception class (RuntimeError) and the returned payload',
@@ -1809,14 +1807,14 @@ def run(ctx):
             continue
         if c.get('kind') == 'fault':
             scs.append(c['scenario'])
-    pool = ThreadPoolExecutor(max_workers=7 if quick else 8)
+    pool = ThreadPoolExecutor(max_workers=4 if quick else 8)
     futs = [(sc, pool.submit(launch_fault, sc, 300.0 if quick else 420.0)) for sc in scs]
 
     # ---- co-simulation -------------------------------------------------------------------------------------
     t0 = time.time()
     nproc = ctx.n(4, 10)
     per = ctx.n(60, 260)
-    budget_s = ctx.n(80, 600)
+    budget_s = ctx.n(60, 600)
     procs = [launch_cosim(ctx.seed * 1000 + w, per, budget_s) for w in range(nproc)]
     for c in corpus:
         if c.get('kind') == 'schedule':
